@@ -77,7 +77,11 @@ theorem routeSrc_ok (U : Univ) (cfg : Cfg) (dir : Dir) {rec : Step} (hrec : Step
   unfold routeSrc
   rw [userMatch_congr U cfg dir src src' he]
   cases userMatch Mode.fixed U cfg dir src' with
-  | some fid => exact ok_pure hr
+  | some sv =>
+    cases sv with
+    | user fid => exact ok_pure hr
+    | enumName pid cid => exact ok_cached rfl hr
+    | enumExact pid cid => exact ok_cached rfl hr
   | none =>
     cases src with
     | cls u =>
@@ -85,6 +89,7 @@ theorem routeSrc_ok (U : Univ) (cfg : Cfg) (dir : Dir) {rec : Step} (hrec : Step
       subst he
       simp only
       cases U.kind u with
+      | enum ms => exact ok_cached rfl hr
       | scalar sc =>
         cases dir <;> simp only <;> split <;> first | exact ok_cached rfl hr | exact ok_pure hr
       | noneType => exact ok_pure hr
